@@ -51,7 +51,15 @@ func HC12HTML() {
 	cv := vChoice("case", 3)
 	var in []byte
 	bom := false
-	switch vChoice("prologue", 7) {
+	switch vChoice("prologue", 9) {
+	case 7: // a long comment: the declaration lies beyond the first 1024 bytes but well inside the examined header
+		in = append(in, "<html><!--"...)
+		for i := 0; i < 1100; i++ {
+			in = append(in, byte('a'+i%26))
+		}
+		in = append(in, "-->"...)
+	case 8: // an earlier meta that declares nothing but uses the same attribute names as a pragma
+		in = append(in, "<meta http-equiv=\"X-UA-Compatible\" content=\"IE=edge\"><meta charset-hint=\"none\" name=\"charset\">"...)
 	case 1:
 		in = append(in, "<!DOCTYPE html>\n"...)
 	case 2:
